@@ -34,6 +34,7 @@ type Obs struct {
 	Label  string `json:"label,omitempty"`  // label cases: the proxy_errors_total{reason} that moved
 	Steps  []string `json:"steps,omitempty"` // repeat / counter / accept cases: per-step outcome
 	Up     string `json:"up,omitempty"`     // upload cases: what the origin read: complete:<n> | incomplete:<n> | nothing
+	Rig    string `json:"rig,omitempty"`    // the rig itself did not carry out the script of the case (what it could not do): the case is not judged
 	Ms     int64  `json:"ms"`
 }
 
@@ -329,7 +330,15 @@ func (e *env) runFault(c *Case) *Obs {
 	}
 	e.observe(cl, method, c.Via, upstreamFault(c.Upstream) != "", o)
 	o.fill(cl)
+	o.rigNote(e)
 	return o
+}
+
+// rigNote takes over what the scripted peers noted about the case (env.rigFailed).
+func (o *Obs) rigNote(e *env) {
+	if v, ok := e.rigNotes.LoadAndDelete(o.ID); ok && o.Rig == "" {
+		o.Rig = v.(string)
+	}
 }
 
 // runLabel runs a fault case alone on the proxy that has a metrics registry and reports which
@@ -573,6 +582,8 @@ func (e *env) runOne(c *Case) (o *Obs) {
 		return e.runAccept(c)
 	case "dialtl":
 		return e.runLattice(c)
+	case "certname":
+		return e.runCertName(c)
 	default:
 		return e.runFault(c)
 	}
